@@ -91,12 +91,13 @@ class LinearPaths:
       self._link_duplicated_first(merged, self.segment(segpath[0].segment),
                                    first_reversed, jntag)
     else:
-      self.__link_merged(merged.name, segpath[0].inverted(), first_reversed)
+      self.__link_merged(merged.name, segpath[0].inverted(), first_reversed,
+                         "L")
     if last_redundant:
       self._link_duplicated_last(merged, self.segment(segpath[-1].segment),
                                   last_reversed, jntag)
     else:
-      self.__link_merged(merged.name, segpath[-1], last_reversed)
+      self.__link_merged(merged.name, segpath[-1], last_reversed, "R")
     idx1 = 1 if first_redundant else 0
     idx2 = -1 if last_redundant else None
     for sn_et in segpath[idx1:idx2]:
@@ -348,7 +349,7 @@ class LinearPaths:
         merged.set(count_tag, count)
     return merged, first_reversed, last_reversed
 
-  def __link_merged(self, merged_name, segment_end, is_reversed):
+  def __link_merged(self, merged_name, segment_end, is_reversed, merged_end):
     to_disconnect = []
     for l in self.segment(segment_end.segment).dovetails_of_end(
                                                  segment_end.end_type):
@@ -358,6 +359,11 @@ class LinearPaths:
     to_add = []
     for l in to_disconnect:
       l2 = l.clone()
+      if l.record_type == "E":
+        self.__move_edge_to_merged(l, l2, merged_name, segment_end,
+                                   is_reversed, merged_end)
+        to_add.append(l2)
+        continue
       # both ends of a hairpin link are moved to the merged segment
       if l.to_end == segment_end:
         l2.to_segment = merged_name
@@ -373,4 +379,21 @@ class LinearPaths:
     for l in to_add:
       self.add_line(l)
 
-
+  def __move_edge_to_merged(self, l, l2, merged_name, segment_end,
+                            is_reversed, merged_end):
+    # GFA2: the overlap is a prefix (if merged_end is L) or a suffix (R) of
+    # the merged segment, thus the positions are recomputed for its length
+    sid_from, sid_to = (1, 2) if l._is_sid1_from() else (2, 1)
+    last = gfapy.LastPos(self.segment(merged_name).length)
+    # both sides of a hairpin edge are moved to the merged segment
+    for n, moved in [(sid_from, l.from_end == segment_end),
+                     (sid_to, l.to_end == segment_end)]:
+      if moved:
+        n = str(n)
+        ovlen = gfapy.posvalue(l.get("end"+n)) - gfapy.posvalue(l.get("beg"+n))
+        orient = l.get("sid"+n).orient
+        if is_reversed:
+          orient = gfapy.invert(orient)
+        l2.set("sid"+n, gfapy.OrientedLine(merged_name, orient))
+        l2.set("beg"+n, 0 if merged_end == "L" else last - ovlen)
+        l2.set("end"+n, ovlen if merged_end == "L" else last)
